@@ -1,6 +1,7 @@
 package route
 
 import (
+	"fmt"
 	"sync"
 	"sync/atomic"
 	"time"
@@ -52,6 +53,9 @@ type CloudWatch struct {
 // NewCloudWatch creates a route that writes metrics to the AWS service CloudWatch
 // We will automatically run the route and the destination
 func NewCloudWatch(key string, matcher matcher.Matcher, awsProfile, awsRegion, awsNamespace string, awsDimensions [][]string, bufSize, flushMaxSize, flushMaxWait int, storageResolution int64, blocking bool) (Route, error) {
+	if bufSize < 0 || flushMaxWait <= 0 {
+		return nil, fmt.Errorf("cloudWatch %q: bufSize must be >= 0 and flushMaxWait > 0", key)
+	}
 
 	r := &CloudWatch{
 		awsProfile:         awsProfile,
